@@ -17,13 +17,13 @@ UCLS = ['uint1', 'uint8', 'uint16', 'uint32', 'uint64', 'uint128']
 SCLS = ['int8', 'int16', 'int32', 'int64', 'int128']
 SIZES = dict(uint1=1, uint8=8, uint16=16, uint32=32, uint64=64, uint128=128,
              int8=8, int16=16, int32=32, int64=64, int128=128)
-BINOPS = ['+', '-', '*', '&', '|', '^', '<<', '>>', '%', '==', '!=', '<', '<=', '>', '>=']
+BINOPS = ['+', '-', '*', '&', '|', '^', '<<', '>>', '%', '==', '!=', '<', '<=', '>', '>=', '**']
 UNOPS = ['~', 'neg', 'abs', 'int', 'hash', 'ctor', 'pow2', 'pow3', 'pow0', 'pow1', 'rpow2']
 
 import operator as _op
 PYOP = {'+': _op.add, '-': _op.sub, '*': _op.mul, '&': _op.and_, '|': _op.or_, '^': _op.xor,
         '<<': _op.lshift, '>>': _op.rshift, '%': _op.mod, '==': _op.eq, '!=': _op.ne, '<': _op.lt,
-        '<=': _op.le, '>': _op.gt, '>=': _op.ge}
+        '<=': _op.le, '>': _op.gt, '>=': _op.ge, '**': _op.pow}
 CMP = ('==', '!=', '<', '<=', '>', '>=')
 
 
@@ -61,7 +61,16 @@ def spec_bin(op, a, b):
     if op == '<<': return a << b
     if op == '>>': return a >> b          # arithmetic = floor division by 2^b for exact signed operands
     if op == '%': return a % b           # bvsmod: sign of the divisor, as Python
+    if op == '**':                       # square-and-multiply: a^b modulo 2^W for 0 <= b < 2^POWBITS
+        r, sq = bvv(1), a
+        for i in range(POWBITS[0]):
+            r = z3.If(z3.Extract(i, i, b) == z3.BitVecVal(1, 1), r * sq, r)
+            sq = sq * sq
+        return r
     raise KeyError(op)
+
+
+POWBITS = [9]
 
 
 def spec_cmp(op, a, b):
@@ -169,6 +178,13 @@ def _harness(eng, kind, ca, cb, op):
     if op == '%':
         d = bt if kind != 'refl' else at
         eng.assume(d != bvv(0))
+    if op == '**':
+        # a ** e with the exponent a plain integer or a value of the same class (the statement fixes no class for a wider
+        # exponent class); 0 <= e <= 2^n: every exponent of the class and the first one beyond; int ** fixed is 'rpow2'
+        if kind == 'refl' or not (cb == 'int' or cb == ca) or na > 8:
+            return ('SKIP',)
+        POWBITS[0] = na + 1
+        eng.assume(z3.And(bt >= bvv(0), bt <= bvv(1 << na)))
     try:
         if kind == 'refl':
             r = PYOP[op](b, a)        # int OP moduint -> reflected method of the moduint
@@ -334,7 +350,7 @@ import miasmx.tools.modint as M
 D = %(data)r
 SIZES = dict(uint1=1, uint8=8, uint16=16, uint32=32, uint64=64, uint128=128, int8=8, int16=16, int32=32, int64=64, int128=128)
 PYOP = {'+': op.add, '-': op.sub, '*': op.mul, '&': op.and_, '|': op.or_, '^': op.xor, '<<': op.lshift,
-        '>>': op.rshift, '%%': op.mod, '==': op.eq, '!=': op.ne, '<': op.lt, '<=': op.le, '>': op.gt, '>=': op.ge}
+        '>>': op.rshift, '%%': op.mod, '==': op.eq, '!=': op.ne, '<': op.lt, '<=': op.le, '>': op.gt, '>=': op.ge, '**': op.pow}
 def red(v, cn):
     n = SIZES[cn]; v %%= 1 << n
     if cn.startswith('int') and v >= 1 << (n - 1): v -= 1 << n
@@ -369,7 +385,8 @@ try:
             elif na > nb: okc = rc == ca
             elif nb > na: okc = rc == cbn
             else: okc = rc in (ca, cbn)
-            bad = (not okc) or r.arg != red(PYOP[o](p, q), rc)
+            ref = pow(p, q, 1 << SIZES[rc]) if o == '**' else PYOP[o](p, q)
+            bad = (not okc) or r.arg != red(ref, rc)
 except Exception as e:
     print('exception', type(e).__name__, e); bad = True
 print('C14 replay', D, '->', 'VIOLATED' if bad else 'holds')
@@ -411,7 +428,7 @@ def main(argv=None):
     cov['functions_encoded'] = ['miasmx.tools.modint:moduint.* (all operator methods, executed from source)',
                                 'miasmx.tools.modint:modint.__init__', 'miasmx.tools.modint:moduint.maxcast']
     cov['bounds'] = ('constructor arguments and plain-int operands in [-2^(n+3), 2^(n+3)]; shift counts 0..2n; '
-                     'divisor != 0; exponents {0,1,2,3} and 2**x with x <= min(n,40); widths '
+                     'divisor != 0; a ** e at 1 and 8 bits for every exponent 0 <= e <= 2^n (plain integer or same class; square-and-multiply statement of the power; wider classes: z3 flattens the nested products, out of reach), exponents {0,1,2,3} as separate obligations, and 2**x with x <= min(n,40); widths '
                      + ('1..64' if a.tier == 'quick' else '1..128') + ', all ordered class pairs')
     if cov['reached'] == 0:
         herr.append('vacuous: no obligation reached')
